@@ -16,6 +16,7 @@ import (
 	"regexp"
 	"runtime"
 	"runtime/debug"
+	"sort"
 	"strconv"
 	"strings"
 	"sync"
@@ -26,6 +27,7 @@ import (
 
 	"github.com/a-h/templ/cmd/templ/fmtcmd"
 	parser "github.com/a-h/templ/parser/v2"
+	"golang.org/x/tools/imports"
 )
 
 var quietLog = slog.New(slog.NewTextHandler(io.Discard, nil))
@@ -254,7 +256,50 @@ func sameProgram(goA, goB string) string {
 	if err != nil {
 		return "generated code of the formatted file does not parse: " + err.Error()
 	}
+	// the import declarations are compared as a set (grouping and order are gofmt-level layout)
+	ia, ib := takeImports(fa), takeImports(fb)
+	if ia != ib {
+		return fmt.Sprintf("imports differ: %s vs %s", ia, ib)
+	}
 	return astEqual(fa, fb, "", false)
+}
+
+// takeImports removes the import declarations from the file and returns them as a sorted list.
+func takeImports(f *ast.File) string {
+	var specs []string
+	var rest []ast.Decl
+	for _, d := range f.Decls {
+		if g, ok := d.(*ast.GenDecl); ok && g.Tok == token.IMPORT {
+			for _, sp := range g.Specs {
+				is := sp.(*ast.ImportSpec)
+				n := ""
+				if is.Name != nil {
+					n = is.Name.Name + " "
+				}
+				// the generator writes these two itself, whatever the templ file imports
+				if is.Path.Value == `"github.com/a-h/templ"` || is.Path.Value == `"github.com/a-h/templ/runtime"` {
+					continue
+				}
+				specs = append(specs, n+is.Path.Value)
+			}
+			continue
+		}
+		rest = append(rest, d)
+	}
+	f.Decls = rest
+	f.Imports = nil
+	sort.Strings(specs)
+	return strings.Join(specs, ", ")
+}
+
+// withManagedImports is the generated program with the import section goimports would give it: what
+// `templ fmt <file>` is documented to maintain. The reference is golang.org/x/tools/imports itself.
+func withManagedImports(goA, fileName string) string {
+	out, err := imports.Process(fileName, []byte(goA), nil)
+	if err != nil {
+		return goA
+	}
+	return string(out)
 }
 
 var writeStmt = regexp.MustCompile(`(?m)^\t*templ_7745c5c3_Err = templruntime\.WriteString\(templ_7745c5c3_Buffer, \d+, ("(?:[^"\\]|\\.)*")\)\n\t*if templ_7745c5c3_Err != nil \{\n\t*return templ_7745c5c3_Err\n\t*\}\n`)
@@ -293,6 +338,9 @@ func onlyStaticWhitespaceDiffers(goA, goB string) bool {
 	}
 	fb, err := goparser.ParseFile(fset, "b.go", modWhitespace(goB), 0)
 	if err != nil {
+		return false
+	}
+	if takeImports(fa) != takeImports(fb) {
 		return false
 	}
 	return astEqual(fa, fb, "", false) == ""
@@ -464,6 +512,7 @@ func filesMode(run *vlib.Run, id string, inputs []Input, acceptedAt []bool, chan
 			if err != nil {
 				return
 			}
+			goA = withManagedImports(goA, strings.TrimSuffix(name(i), ".templ")+"_templ.go")
 			pass := 0
 			checkOne(run, id, in, "`templ fmt <dir>` (file rewritten in place): ", func(string) (string, error) {
 				pass++
